@@ -55,10 +55,22 @@ class Server:
         self.docroot = os.path.join(self.root, "docroot")
         os.makedirs(self.docroot, exist_ok=True)
         os.makedirs(os.path.join(self.root, "tmp"), exist_ok=True)
+        self._fixed_port = port is not None
         self.port = port or free_port()
         self.errlog = os.path.join(self.root, "error.log")
-        mods = ", ".join('"%s"' % m for m in modules)
+        self._mods, self._conf_body = modules, conf_body
         self.conf = os.path.join(self.root, "lighttpd.conf")
+        self._write_conf()
+        self.env = dict(os.environ)
+        self.env["ASAN_OPTIONS"] = "detect_leaks=0:abort_on_error=1:handle_abort=1"
+        self.env["UBSAN_OPTIONS"] = "print_stacktrace=1"
+        if env:
+            self.env.update(env)
+        self.proc = None
+
+    def _write_conf(self):
+        mods = ", ".join('"%s"' % m for m in self._mods)
+        conf_body = self._conf_body
         with open(self.conf, "w") as f:
             f.write('server.document-root = "%s"\n' % self.docroot)
             f.write('server.bind = "127.0.0.1"\nserver.port = %d\n' % self.port)
@@ -70,19 +82,34 @@ class Server:
                     '"application/octet-stream", ".css" => "text/css", "" => "application/octet-stream")\n')
             f.write(conf_body.replace("@ROOT@", self.root).replace("@DOCROOT@", self.docroot)
                     .replace("@PORT@", str(self.port)))
-        self.env = dict(os.environ)
-        self.env["ASAN_OPTIONS"] = "detect_leaks=0:abort_on_error=1:handle_abort=1"
-        self.env["UBSAN_OPTIONS"] = "print_stacktrace=1"
-        if env:
-            self.env.update(env)
-        self.proc = None
 
     def start(self, timeout=10):
+        """start the server; if the port was taken by somebody else meanwhile, try another one"""
+        for attempt in range(6):
+            try:
+                return self._start_once(timeout)
+            except RuntimeError as x:
+                msg = str(x)
+                taken = "served by another process" in msg or "Address already in use" in msg \
+                    or "can't bind" in msg
+                if self._fixed_port or not taken or attempt == 5:
+                    raise
+                try:
+                    if self.proc and self.proc.poll() is None:
+                        self.proc.kill()
+                        self.proc.wait()
+                    self.stderr_f.close()
+                except Exception:
+                    pass
+                self.port = free_port()
+                self._write_conf()
+
+    def _start_once(self, timeout=10):
         self.stderr_path = os.path.join(self.root, "stderr.log")
         self.stderr_f = open(self.stderr_path, "wb")
         self.proc = subprocess.Popen([os.path.join(self.bindir, "lighttpd"), "-D", "-f", self.conf,
                                       "-m", self.bindir], stdout=self.stderr_f, stderr=self.stderr_f,
-                                     env=self.env, cwd=self.root)
+                                     env=self.env, cwd=self.root, preexec_fn=C.die_with_parent)
         t0 = time.time()
         while time.time() - t0 < timeout:
             if self.proc.poll() is not None:
@@ -90,10 +117,44 @@ class Server:
             try:
                 s = socket.create_connection(("127.0.0.1", self.port), timeout=0.3)
                 s.close()
+                # the port answers -- make sure it is OUR process that listens on it (another run may
+                # have taken the port between free_port() and our bind)
+                own = self._owns_port()
+                if own is False:
+                    time.sleep(0.2)
+                    if self.proc.poll() is not None or self._owns_port() is False:
+                        raise RuntimeError("port %d is served by another process: %s"
+                                           % (self.port, self.logs()[-1500:]))
                 return self
             except OSError:
                 time.sleep(0.05)
         raise RuntimeError("lighttpd did not start: " + self.logs()[-2000:])
+
+    def _owns_port(self):
+        """True/False: the LISTEN socket on self.port belongs to self.proc; None: cannot tell"""
+        try:
+            inodes = set()
+            for fn in ("/proc/net/tcp", "/proc/net/tcp6"):
+                try:
+                    for ln in open(fn).read().split("\n")[1:]:
+                        f = ln.split()
+                        if len(f) > 9 and f[3] == "0A" and int(f[1].rsplit(":", 1)[1], 16) == self.port:
+                            inodes.add(f[9])
+                except OSError:
+                    pass
+            if not inodes:
+                return None
+            d = "/proc/%d/fd" % self.proc.pid
+            for n in os.listdir(d):
+                try:
+                    t = os.readlink(os.path.join(d, n))
+                except OSError:
+                    continue
+                if t.startswith("socket:[") and t[8:-1] in inodes:
+                    return True
+            return False
+        except OSError:
+            return None
 
     def alive(self):
         return self.proc is not None and self.proc.poll() is None
